@@ -87,7 +87,7 @@ func RunQB(s *simrt.Sim, a *harness.Args, r *harness.Result) {
 	sc.Scale = 1
 	sc.Parallel = []int{1, 2}[s.T.Choose(st, 2)]
 	num := []int{0, 2, 4, 6}[s.T.Choose(st, 4)]
-	plan := &actors.MXPlan{LMTP: lmtp, EnhCodes: s.T.Choose(st, 4) != 0, SMTPUTF8: s.T.Choose(st, 2) == 1, NonASCIIText: s.T.Choose(st, 5) == 0,
+	plan := &actors.MXPlan{LMTP: lmtp, EnhCodes: s.T.Choose(st, 4) != 0, SMTPUTF8: s.T.Choose(st, 2) == 1, NonASCIIText: s.T.Choose(st, 5) == 0, Perm552: s.T.Choose(st, 4) == 0,
 		Rcpt: map[string][]actors.Outcome{}, FinalPer: map[string][]actors.Outcome{}}
 	nm := 1 + s.T.Choose(st, 2)
 	for i := 0; i < nm; i++ {
